@@ -1167,6 +1167,62 @@ example :
     returned (calculate T0 1 (mirrorOracle o (1 / 2)) { start := some (4 / 7), total := some (1 / 4) }) =
       some (some 3, some (1 / 4)) := by decide +kernel
 
+/-- (start size, end size) reversed: the chop with the two sizes exchanged resolves to the same count and the reciprocal
+    total expansion `s/e`, under the same existence hypothesis (the ratio of the reversed chop on its last cell `s`).
+    With this all ten pairs are proved end to end. -/
+theorem T_C03_invert_start_end {L s e c' : ℚ} {o : Oracle} {res : Vals} {n : ℕ}
+    (h : calculate T0 L o { start := some s, end_ := some e } = .ok res) (hcnt : res.count = some n) (hn : 3 ≤ n)
+    (hb : absR (e / s - 1) < TOL ↔ absR (s / e - 1) < TOL)
+    (hroot : c2cCountEnd T0 (mirrorOracle o c') L n s = .ok c') :
+    ∃ res', calculate T0 L (mirrorOracle o c') { start := some e, end_ := some s } = .ok res' ∧
+      res'.count = res.count ∧ res'.total = res.total.map (fun T => 1 / T) := by
+  obtain ⟨T, n', c, hT, hn', hc, rfl⟩ := pair_start_end h
+  have : n' = n := by simpa using hcnt
+  subst this
+  obtain ⟨hL, hs, he, hTv⟩ := totalStartEnd_ok hT
+  subst hTv
+  obtain ⟨_, _, _, hoc, hn1, hcase⟩ := countTotalStart_ok hn'
+  have hTpos : 0 < e / s := by positivity
+  have hinv : 1 / (e / s) = s / e := by field_simp
+  have hse : s * (e / s) = e := by field_simp
+  have hcount : countTotalStart T0 (mirrorOracle o c') L (s / e) e = .ok n' := by
+    unfold countTotalStart
+    simp only [guardLen_bind, guardSize_bind, guardRatio_bind]
+    rw [if_neg (not_le.mpr hL), if_neg (not_le.mpr he), if_neg (ne_of_gt (by positivity))]
+    rcases hcase with ⟨hu, hok⟩ | ⟨hnu, _, hok⟩
+    · rw [if_pos (hb.mp hu)]
+      have := dMin_inv (s := s) hTpos
+      rw [hinv, hse] at this
+      rw [this]
+      exact oracleCount_intro hoc hn1 hok
+    · rw [if_neg (fun hh => absurd (hb.mpr hh) (not_lt.mpr hnu)), if_neg (not_lt.mpr (le_of_lt (by positivity)))]
+      have := countTOK_inv hn hok
+      rw [hinv, hse] at this
+      exact oracleCount_intro hoc hn1 this
+  refine ⟨(⟨some n', some e, some s, some c', some (s / e)⟩ : Vals), ?_, rfl, ?_⟩
+  · rw [calculate_ok_iff (k := 3) (by exact plan_start_end), runSteps3]
+    refine ⟨{ start := some e, end_ := some s, total := some (s / e) },
+      { count := some n', start := some e, end_ := some s, total := some (s / e) }, ?_, ?_, ?_⟩
+    · simp only [applyRel, map_ok]
+      refine ⟨s / e, ?_, rfl⟩
+      unfold totalStartEnd
+      simp only [guardLen_bind, guardSize_bind]
+      rw [if_neg (not_le.mpr hL), if_neg (not_le.mpr he), if_neg (not_le.mpr hs)]
+      rfl
+    · simp only [applyRel, map_ok]
+      exact ⟨n', hcount, rfl⟩
+    · simp only [applyRel, map_ok]
+      exact ⟨c', hroot, rfl⟩
+  · simp only [Option.map_some, hinv]
+
+
+example :
+    let o : Oracle := { count := some 3, c2c := some 2, w1 := some 2, w2 := some 4 }
+    returned (calculate T0 1 o { start := some (1 / 7), end_ := some (4 / 7) }) = some (some 3, some 4) ∧
+    c2cCountEnd T0 (mirrorOracle o (1 / 2)) 1 3 (1 / 7) = .ok (1 / 2) ∧
+    returned (calculate T0 1 (mirrorOracle o (1 / 2)) { start := some (4 / 7), end_ := some (1 / 7) }) =
+      some (some 3, some (1 / 4)) := by decide +kernel
+
 /-! ### 7b. histories on one `Chop` object: `calculate` keeps no memory -/
 
 /-- Every `calculate` inside a history of calls on one object answers exactly what a fresh chop with the current
